@@ -34,7 +34,7 @@ func (c15) Describe() engine.Info {
 	return engine.Info{
 		Rule: "class rescene: after the first scene has been judged it is changed (objects hidden with Y=0 or Y>=160, attributes, scroll, window, palettes, LCDC) during VBlank or with the LCD switched off at an arbitrary cycle, and the frames after the change are judged against the new scene alone; scenario = random scene within the statement's restrictions (LCD and background on, 8x8 objects, at most 10 per line, OAM ordered by X, WX 7..166): random or structured tile data, both tile maps, both addressing modes, SCX/SCY, window on/off at any position, 0..40 objects anywhere incl. partly outside each edge, flips, both object palettes, background priority, arbitrary BGP/OBP0/OBP1; LCD switched on at a random cycle of the frame loop; 2..4 frames; CPU parked or running a program. All 23,040 pixels of the last frame handed to the simulated display are compared. " +
 			"Oracle: reference compositor (low bit-plane = first byte; object priority by X then OAM index); the four shades must be four distinct greys of strictly decreasing brightness, consistent over the frame (the RGB values themselves are not prescribed). Signature = (features present: window, objects clipped at top/bottom/left/right, object palette 1, background-priority objects, signed addressing, flips)." +
-			" Every frame handed to the display whose lines were all drawn from the current scene is judged (the first whole frame after a restart included); a third of the scenes align the background and window coordinate systems; a quarter get stores to LY and to registers of other units while frames are drawn. One scenario in four stores into the video registers the values they already hold, at any point of the frame.",
+			" Every frame handed to the display whose lines were all drawn from the current scene is judged (the first whole frame after a restart included); a third of the scenes align the background and window coordinate systems; a quarter get stores to LY and to registers of other units while frames are drawn. One scenario in four stores into the video registers the values they already hold, at any point of the frame. Scene registers are stored in an order chosen by the seed (LCDC among them for changes in the vertical blank); windows below the screen (WY 144-255) come up in the second scene.",
 		Assumptions:    []string{"the RGB values of the four shades are not prescribed; they are learnt per frame and must be consistent, grey and strictly darker with the shade number", "mid-frame register changes are outside the statement (the scene is constant)"},
 		RequiredProbes: []string{"scene_changed", "objects_hidden_by_y0", "frames_compared", "object_clipped_top", "object_clipped_left", "object_clipped_right", "object_clipped_bottom", "window_visible", "bg_priority_object", "obp1_object", "ly_store_while_drawing", "same_value_store_while_drawing", "first_whole_frame_after_switch_on_judged"},
 		RealComponents: realComponents, StubComponents: stubComponents,
